@@ -22,6 +22,10 @@ TRUSTED_BASE = [
 ]
 
 
+DEFER_BROKEN = False     # set by ./check in the quick tier
+PENDING = []             # the lines of a deferred broken-obligation report
+
+
 def strip_comments(src):
     """remove /- ... -/ (nested) and -- comments from Lean source"""
     out = []
@@ -68,6 +72,7 @@ class ProofStatus:
         self.theorems = []          # names expected
         self.axioms = {}            # name -> list of axioms (only for theorems that elaborated)
         self.problems = []          # human readable
+        self.leanchecker = None     # thorough tier: "ok" / "failed" / "timeout"
 
     @property
     def obligations(self):
@@ -119,6 +124,17 @@ def lean_check(prop_id, extra_props=()):
         except OSError:
             pass
     out = r.stdout + r.stderr
+    if os.environ.get("VERIF_TIER_ACTIVE") == "thorough" and os.environ.get("VERIF_LEANCHECKER", "1") != "0":
+        # thorough tier: the toolchain's independent re-checker replays the compiled declarations of the property files
+        mods = ["MTVerif.Props." + p for p in (prop_id,) + tuple(extra_props)]
+        try:
+            rc = subprocess.run(["lake", "env", "leanchecker"] + mods, cwd=LEAN_DIR, capture_output=True, text=True, timeout=1800)
+            st.leanchecker = "ok" if rc.returncode == 0 else "failed"
+            if rc.returncode != 0:
+                st.problems.append("leanchecker rejected %s: %s" % (" ".join(mods), (rc.stdout + rc.stderr)[-300:]))
+        except subprocess.TimeoutExpired:
+            st.leanchecker = "timeout"
+            st.problems.append("leanchecker timed out")
     for m in re.finditer(r"'([^']+)' depends on axioms: \[([^\]]*)\]", out):
         st.axioms[m.group(1)] = [a.strip() for a in m.group(2).replace("\n", " ").split(",") if a.strip()]
     for m in re.finditer(r"'([^']+)' does not depend on any axioms", out):
@@ -236,6 +252,14 @@ class Check:
                                                       "all_failures": self.failures[:20], "broken": broken})
             lines.append("VIOLATION property=%s replay=%s" % (self.prop_id, path))
             violations = len(self.failures)
+        elif broken and DEFER_BROKEN:
+            # quick tier: the caller (./check) first runs the intensified failing-input search in a second process
+            path = self.write_replay("broken-obligation", {"obligations": broken, "disagreements": self.disagreements[:20],
+                                                          "build_log": proof.build_log if not proof.build_ok else ""})
+            lines.append("VIOLATION property=%s replay=%s no-failing-input-found" % (self.prop_id, path))
+            self.write_evidence(proof, 1, broken)
+            PENDING.extend(lines)
+            return 3
         elif broken:
             path = self.write_replay("broken-obligation", {"obligations": broken,
                                                           "disagreements": self.disagreements[:20],
@@ -255,6 +279,7 @@ class Check:
             "checker_cmd": "cd lean && lake build && lake env lean <generated #print axioms file for Props/%s.lean>" % self.prop_id,
             "trusted_base": TRUSTED_BASE + self.assumptions,
             "theorems": {n: proof.axioms.get(n) for n in proof.theorems},
+            "leanchecker": proof.leanchecker,
             "evaluations": self.evaluations,
             "distinct_nontrivial": len(self.nontrivial),
             "rule": self.rule,
@@ -282,7 +307,7 @@ class Check:
             "violations": violations,
         }
         # self-test runs against a scratch tree (VERIF_REPO) must not overwrite the registered evidence
-        d = os.path.join(VERIF, "evidence") if os.path.realpath(REPO) == "/repo" else os.environ.get("VERIF_EVIDENCE_DIR", "/tmp/mtv_selftest_evidence")
+        d = os.environ.get("VERIF_EVIDENCE_DIR") or (os.path.join(VERIF, "evidence") if os.path.realpath(REPO) == "/repo" else "/tmp/mtv_selftest_evidence")
         os.makedirs(d, exist_ok=True)
         tmp = os.path.join(d, self.prop_id + ".json.tmp")
         with open(tmp, "w") as f:
